@@ -283,7 +283,7 @@ def binop(it, op, a, b, node=None):
                 return a % b
             except (TypeError, ValueError) as e:
                 raise PyExc('TypeError', str(e), site=(getattr(node, 'lineno', None), 'type'), kind='type')
-        raise Unsupported('% formatting')
+        return percent_format(it, a, b, node)
     if isinstance(op, ast.BitOr) and (isinstance(a, SymSet) or isinstance(b, SymSet)):
         def member(v, x):
             r = contains(it, v, x, node)
@@ -696,6 +696,59 @@ def to_repr(it, v, node=None):
     if isinstance(v, (PDict, Obj, SOpt, OpaqueVal, OpaqueFloat, SymList, SymMap)):
         return SStr([('opaque', 'repr', (v,))])
     raise Unsupported('repr() of %s' % type(v).__name__)
+
+
+def percent_format(it, fmt, args, node=None):
+    """'...%s...%d...' % args with a literal template: each conversion is the f-string field with the same presentation
+    (%s / %r / %d / %i / %x / %X / %#x with optional '-' flag, '0' flag and width; %% is a percent sign)"""
+    import re
+    vals = list(args) if isinstance(args, tuple) else [args]
+    out = ''
+    pos = 0
+    k = 0
+    for m in re.finditer(r'%(?:\((\w+)\))?([-#0 +]*)(\d+)?(?:\.(\d+))?([sdrixX%])', fmt):
+        out = str_concat(out, fmt[pos:m.start()])
+        pos = m.end()
+        key, flags, width, prec, conv = m.groups()
+        if conv == '%':
+            out = str_concat(out, '%')
+            continue
+        if key is not None or prec is not None or ' ' in flags or '+' in flags:
+            raise Unsupported('%% formatting with %r' % m.group(0))
+        if k >= len(vals):
+            raise PyExc('TypeError', 'not enough arguments for format string', site=(getattr(node, 'lineno', None), 'type'), kind='type')
+        v = vals[k]
+        k += 1
+        if conv in 'di':
+            if isinstance(v, SOpt):
+                it.raise_if(z3.Not(v.present), 'TypeError', 'none-format', node)
+                v = v.val
+            if not is_intlike(v):
+                if isinstance(v, (str, SStr)) or v is None:
+                    raise PyExc('TypeError', '%d format: a real number is required', site=(getattr(node, 'lineno', None), 'type'), kind='type')
+                raise Unsupported('%%d of %s' % type(v).__name__)
+            piece = to_str(it, v if not isinstance(v, (EnumVal, SEnum)) else enum_value(v), node)
+            align = '<' if '-' in flags else '>'
+        elif conv in 'xX':
+            if not is_intlike(v):
+                raise Unsupported('%%x of %s' % type(v).__name__)
+            piece = format_value(it, v, ('#' if '#' in flags else '') + conv, node)
+            align = '<' if '-' in flags else '>'
+        elif conv == 'r':
+            piece = to_repr(it, v, node)
+            align = '<' if '-' in flags else '>'
+        else:
+            piece = to_str(it, v, node)
+            align = '<' if '-' in flags else '>'
+        if width:
+            if '0' in flags and '-' not in flags and conv in 'dixX':
+                raise Unsupported('zero padded %% conversion')
+            w = int(width)
+            piece = format(piece, align + str(w)) if isinstance(piece, str) else SStr([('pad', to_sstr(piece), w, align)])
+        out = str_concat(out, piece)
+    if k != len(vals):
+        raise PyExc('TypeError', 'not all arguments converted during string formatting', site=(getattr(node, 'lineno', None), 'type'), kind='type')
+    return str_concat(out, fmt[pos:])
 
 
 def format_value(it, v, spec, node=None):
